@@ -436,7 +436,10 @@ def fsDel (s : State) (img : Bool) (n : String) : State × Option Err :=
 /-! ## In-place `Font.save` (UFO 3).  `tD`: the modification time files written now get on disk;
 `tS`: the time the writer reports for them when `zip` (the writer works on a temporary copy, so the
 times it reports never equal a time in the archive; for a package the writer reports the file's
-own time). -/
+own time).  A zip archive is rewritten as a whole: all its entries get the wall-clock time of the
+rewrite, with two-second granularity — not reproducible, so the harness sets every entry's time to
+`tD` right after the save; the reader the font opened at the end of the save keeps the archive it
+opened (times `tS` in the model). -/
 
 /-- ufoLib skips the write when the file holds these bytes already (mtime preserved) -/
 def writeFile {κ : Type} [DecidableEq κ] (files : List (κ × File)) (n : κ) (b : Blob) (t : Time) : List (κ × File) :=
@@ -564,9 +567,12 @@ def save (s : State) (tD tS : Time) : Except Err State :=
   if (layerNames s9.disk).all (· ∈ s9.font.order) then
     let layers := s9.font.order.filterMap fun n => (AL.get? s9.disk.layers n).map fun dl => (n, dl)
     let d1 : Disk := { s9.disk with layers := layers }
+    -- a rewritten zip archive: every entry gets the time of the rewrite (the harness then sets the
+    -- times of the archive to `tD`, while the reader the font has just opened still sees `tS`)
     let d2 := if s.zip then retime tD d1 else d1
-    .ok (rebindAll { s9 with disk := d2
-                             font := { s9.font with history := (s9.font.order.filter (some · ≠ s9.font.default)).map Action.new } })
+    let s10 := rebindAll { s9 with disk := d2
+                                   font := { s9.font with history := (s9.font.order.filter (some · ≠ s9.font.default)).map Action.new } }
+    .ok (if s.zip then { s10 with reader := retime tS d1 } else s10)
   else .error .outsideDomain
 
 
@@ -899,20 +905,16 @@ inductive XAct where
   | delete
 deriving DecidableEq, Repr
 
-/-- the time a rewritten file gets.  In a zip archive only times set by an external edit can be
-kept (the times a save of the font leaves are the wall clock's, two-second granularity). -/
-def xTime (zip : Bool) (cur : Option File) (t : Option Time) : Option Time :=
+/-- the time a rewritten file gets: the given one, or the one the file has -/
+def xTime (cur : Option File) (t : Option Time) : Option Time :=
   match t with
   | some k => some k
-  | none =>
-    match cur with
-    | none => none
-    | some f => if zip ∧ f.mtime ≥ 1000000 then none else some f.mtime
+  | none => cur.map (·.mtime)
 
 def xFile {κ : Type} [DecidableEq κ] (zip : Bool) (files : List (κ × File)) (n : κ) (a : XAct) (t : Option Time) :
     Option (List (κ × File)) :=
   match a with
-  | .write b => (xTime zip (AL.get? files n) t).map fun tt => AL.set files n ⟨b, tt⟩
+  | .write b => (xTime (AL.get? files n) t).map fun tt => AL.set files n ⟨b, tt⟩
   | .touch =>
     match AL.get? files n with
     | none => none
